@@ -35,6 +35,21 @@ CHECKS = {
                 "net.Pipe as connection. TCP urgent data/deadlines not modelled. No axioms.",
         "technique": "Coq proof (all-segmentations theorem by induction over scanner runs; staged-read refinement) + differential correspondence check over scripted segmentations",
     },
+    "C05": {
+        "text": "Theorems (Props/C05.v): (guards_match_spec) for every one of the 43 handlers found in the source the set of Access constants it passes "
+                "to Authorize equals the reference table (no dropped check, wrong constant or extra check), every registered type is covered, "
+                "and the governing privileges of each of 52 request classes (type x target kind x request shape) are among the constants its handler "
+                "tests with the protocol's numbers - all over tables REGENERATED from transaction_handlers.go and access.go each run; "
+                "(denied_iff_privilege_missing / never_refused_when_held) for ALL 2^64 bitmaps the decision is 'refused iff some governing bit is "
+                "clear'; the display name is adopted iff bit 26 is held and never causes an error. Correspondence: every class is run on the real "
+                "handlers (fresh targets per request on a real sandbox: files, folders, upload/drop-box folders, accounts, news items, chats, a "
+                "second client) under all-ones-minus-one-bit, single-bit, exactly-the-governing-set and governing-set-minus-one bitmaps "
+                "(all 64 positions in the thorough tier); observed: refused or not, and for a refusal that nothing was queued and no file, "
+                "account, news or ban state changed.",
+        "note": "Handler bodies are not modelled in Coq; the branch structure (which guard governs which target kind) is tied by the bit sweep, the "
+                "constants by the translator. Trusted: reference tables, translator. No axioms.",
+        "technique": "Coq proof over translator-generated guard tables + exhaustive single-bit / all-but-one-bit correspondence on the real handlers",
+    },
     "C06": {
         "text": "Theorems (Props/C06.v) over the Gallina model of the amplification loop of HandleNewUser / HandleUpdateUser-create and of "
                 "HandleDisconnectUser: for ALL creator bitmaps and request field contents the created account holds copy8(request) and "
